@@ -1,51 +1,35 @@
 import GdcVerif.Model.JpegMarkers
 /-
-  Header walk of /repo/jpegls/lossless/decoder.go (`Decoder.decode`, parseSOF55, parseLSE, parseSOS)
-  and the parameter derivation it triggers (/repo/jpegls/lossless/context.go ComputeCodingParameters,
-  computeThresholds, bitsLen).  Go `int` is 64-bit: `1 << uint(p)` is 0 for p ≥ 64 and wraps for
-  p = 63, so MAXVAL is modelled with explicit 64-bit wrap-around.
+  Header walks of the two JPEG-LS decoders (HEAD, after commit c3ac264 "precision outside 2..16"):
+    /repo/jpegls/lossless/decoder.go      Decoder.decode, parseSOF55, parseLSE, parseSOS
+    /repo/jpegls/nearlossless/decoder.go  Decoder.decode, parseSOF55, parseLSE, parseSOS, applyCodingParameters
+  and the divisions of the parameter derivation they trigger
+    /repo/jpegls/lossless/context.go      ComputeCodingParameters ((maxVal+2·near)/(2·near+1)),
+                                          computeThresholds (256/(maxVal+1), 3/factor).
+  Go `int` is 64-bit: `1 << uint(p)` is modelled with explicit wrap-around although the guard now
+  keeps p in 2..16 — the theorems show the division sites dead.
 -/
 namespace JlsH
-open JM (Bytes readMarker readSegment readMarker_progress readSegment_progress hasLength readSegmentAlloc)
-
-inductive Site
-  | thresholdsDiv   -- computeThresholds: 256 / (maxVal + 1)
-deriving Repr, DecidableEq
-
-inductive Outcome (α : Type) where
-  | ok (a : α) | err | panic (s : Site) | scan
-deriving Repr, DecidableEq
+open PC JM
 
 def wrap64 (x : Int) : Int := (x + 2 ^ 63) % 2 ^ 64 - 2 ^ 63
 
 /-- `(1 << uint(bitDepth)) - 1` in Go's 64-bit `int` -/
 def maxValOf (p : Nat) : Int := wrap64 (wrap64 (if p ≥ 64 then 0 else 2 ^ p) - 1)
 
-/-- `bitsLen`: the loop `for n > 0 { n >>= 1; length++ }` runs at most 64 times on a 64-bit int;
-    modelled on the non-negative value, fuel = 64 is exact for values < 2^64 -/
-def bitsLenLoop : Nat → Nat → Nat → Nat
-  | 0, _, len => len
-  | fuel + 1, n, len => if n > 0 then bitsLenLoop fuel (n / 2) (len + 1) else len
-def bitsLen (n : Int) : Nat := if n ≤ 1 then 1 else bitsLenLoop 64 (n - 1).toNat 0
+/-- the divisions of `computeThresholds(maxVal, near)`: `256/(maxVal+1)` and then `3/factor`,
+    `7/factor`, `21/factor` on the branch maxVal < 128 -/
+def thresholdsDivOk (maxVal : Int) : Bool :=
+  if maxVal ≥ 128 then true
+  else if wrap64 (maxVal + 1) = 0 then false
+  else if (256 : Int).tdiv (wrap64 (maxVal + 1)) = 0 then false
+  else true
 
-/-- `computeThresholds(maxVal, near)`: `none` = integer divide by zero -/
-def computeThresholds (maxVal near : Int) : Option (Int × Int × Int) :=
-  let clamp (v lo hi : Int) : Int := if v < lo then lo else if v > hi then hi else v
-  if maxVal ≥ 128 then
-    let factor := (min maxVal 4095 + 128).tdiv 256
-    let t1 := clamp (factor * 1 + 2 + 3 * near) (near + 1) maxVal
-    let t2 := clamp (factor * 4 + 3 + 5 * near) t1 maxVal
-    let t3 := clamp (factor * 17 + 4 + 7 * near) t2 maxVal
-    some (t1, t2, t3)
-  else if wrap64 (maxVal + 1) = 0 then none
-  else
-    let factor := (256 : Int).tdiv (wrap64 (maxVal + 1))
-    if factor = 0 then none   -- 3 / factor; unreachable for maxVal < 128 (see `factor_ne_zero`)
-    else
-      let t1 := clamp (max 2 ((3 : Int).tdiv factor + 3 * near)) (near + 1) maxVal
-      let t2 := clamp (max 3 ((7 : Int).tdiv factor + 5 * near)) t1 maxVal
-      let t3 := clamp (max 4 ((21 : Int).tdiv factor + 7 * near)) t2 maxVal
-      some (t1, t2, t3)
+/-- `ComputeCodingParameters(maxVal, near, reset)`: the range division (near > 0 only) and
+    computeThresholds; `none` when all divisors are non-zero, else the site -/
+def codingParamsPanic (maxVal near : Int) : Option Site :=
+  if near > 0 ∧ wrap64 (2 * near + 1) = 0 then some .jlsRange
+  else if thresholdsDivOk maxVal then none else some .jlsThresholds
 
 structure St where
   maxVal : Int := 0
@@ -53,91 +37,161 @@ structure St where
   width : Nat := 0
   height : Nat := 0
   comps : Nat := 0
+  near : Nat := 0
   allocs : List Nat := []
 deriving Repr, DecidableEq
 
 /-- contexts: 365 `*Context` of 4 ints each, allocated by NewContextTable on every (re)initialisation -/
 def ctxAlloc : Nat := 365 * (8 + 32)
 
-/-- parseSOF55 on the payload -/
-def sof55 (st : St) (data : Bytes) : Outcome St :=
-  if data.length < 6 then .err
+/-- frame header fields shared by both decoders' parseSOF55: error, or (p, h, w, nc) -/
+def sofFields (data : Bytes) : Option (Nat × Nat × Nat × Nat) :=
+  if data.length < 6 then none
   else
     let p := data.getD 0 0
     let h := data.getD 1 0 * 256 + data.getD 2 0
     let w := data.getD 3 0 * 256 + data.getD 4 0
     let nc := data.getD 5 0
-    if w = 0 ∨ h = 0 then .err
-    else if nc ≠ 1 ∧ nc ≠ 3 then .err
-    else
-      let mv := maxValOf p
-      -- NewTraits → ComputeCodingParameters → computeThresholds (twice more in initCodingParameters)
-      match computeThresholds mv 0 with
-      | none => .panic .thresholdsDiv
-      | some _ => .ok { st with maxVal := mv, bitDepth := p, width := w, height := h, comps := nc,
-                                allocs := st.allocs ++ [ctxAlloc] }
+    if p < 2 ∨ p > 16 then none
+    else if w = 0 ∨ h = 0 then none
+    else if nc ≠ 1 ∧ nc ≠ 3 then none
+    else some (p, h, w, nc)
 
-/-- parseLSE on the payload -/
-def lse (st : St) (data : Bytes) : Outcome St :=
+/-- lossless parseSOF55: NewTraits + initCodingParameters (ComputeCodingParameters three times) -/
+def sof55 (st : St) (data : Bytes) : H St :=
+  match sofFields data with
+  | none => .stop st .err
+  | some (p, h, w, nc) =>
+    match codingParamsPanic (maxValOf p) 0 with
+    | some s => .stop st (.panic s)
+    | none => .cont { st with maxVal := maxValOf p, bitDepth := p, width := w, height := h, comps := nc,
+                              allocs := st.allocs ++ [ctxAlloc] }
+
+/-- lossless parseLSE -/
+def lse (st : St) (data : Bytes) : H St :=
   match data with
-  | [] => .err
+  | [] => .stop st .err
   | id :: _ =>
-    if id ≠ 1 then .ok st
-    else if data.length < 11 then .err
+    if id ≠ 1 then .cont st
+    else if data.length < 11 then .stop st .err
     else
-      let mv : Int := data.getD 1 0 * 256 + data.getD 2 0
+      let mv : Int := (data.getD 1 0 * 256 + data.getD 2 0 : Nat)
       let mv := if mv ≤ 0 then st.maxVal else mv
-      match computeThresholds mv 0 with
-      | none => .panic .thresholdsDiv
-      | some _ => .ok { st with maxVal := mv, allocs := st.allocs ++ [ctxAlloc] }
+      match codingParamsPanic mv 0 with
+      | some s => .stop st (.panic s)
+      | none => .cont { st with maxVal := mv, allocs := st.allocs ++ [ctxAlloc] }
 
-/-- parseSOS on the payload: error, or the scan starts -/
-def sos (st : St) (data : Bytes) : Outcome Unit :=
-  if data.length < 4 then .err
-  else if data.getD 0 0 ≠ st.comps then .err
+/-- interleave check shared by both parseSOS -/
+def sosOk (st : St) (data : Bytes) : Bool :=
+  if data.length < 4 then false
+  else if data.getD 0 0 ≠ st.comps then false
   else
     let il := data.getD (data.length - 2) 0
-    if st.comps = 1 ∧ il ≠ 0 then .err
-    else if st.comps > 1 ∧ il ≠ 2 then .err
-    else .scan
+    if st.comps = 1 ∧ il ≠ 0 then false
+    else if st.comps > 1 ∧ il ≠ 2 then false
+    else true
 
-/-- marker loop of `Decoder.decode` after SOI -/
-def loop (st : St) (bs : Bytes) : Outcome Unit × List Nat :=
-  match hm : readMarker bs with
-  | none => (.err, st.allocs)
-  | some (m, rest) =>
-    have hlt : rest.length < bs.length := by have := readMarker_progress hm; omega
-    if m = 0xFFF7 ∨ m = 0xFFF8 then
-      match hs : readSegment rest with
-      | none => (.err, st.allocs ++ [readSegmentAlloc rest])
-      | some (pl, rest2) =>
-        have : rest2.length < bs.length := by have := readSegment_progress hs; omega
-        match (if m = 0xFFF7 then sof55 st pl else lse st pl) with
-        | .ok st' => loop { st' with allocs := st'.allocs ++ [pl.length] } rest2
-        | .err => (.err, st.allocs ++ [pl.length])
-        | .panic s => (.panic s, st.allocs ++ [pl.length])
-        | .scan => (.scan, st.allocs)
-    else if m = 0xFFDA then
-      match readSegment rest with
-      | none => (.err, st.allocs ++ [readSegmentAlloc rest])
-      | some (pl, rest2) =>
-        match sos st pl with
-        | .scan => (.scan, st.allocs ++ [pl.length, rest2.length, 8 * (st.width * st.height * st.comps)])
-        | _ => (.err, st.allocs ++ [pl.length])
-    else if m = 0xFFD9 then (.err, st.allocs)
-    else if hasLength m then
-      match hs : readSegment rest with
-      | none => (.err, st.allocs ++ [readSegmentAlloc rest])
-      | some (pl, rest2) =>
-        have : rest2.length < bs.length := by have := readSegment_progress hs; omega
-        loop { st with allocs := st.allocs ++ [pl.length] } rest2
-    else loop st rest
-termination_by bs.length
+/-- what a scan start allocates: the scan byte buffer (≤ unread input) and `make([]int, w·h·comps)` -/
+def scanAllocs (st : St) (unread : Nat) : List Nat := [unread, 8 * (st.width * st.height * st.comps)]
 
-/-- `lossless.Decode` up to the start of the scan -/
-def header (bs : Bytes) : Outcome Unit × List Nat :=
+/-- one turn of the lossless decoder's marker loop -/
+def step (st : St) (bs : Bytes) : Step St :=
   match readMarker bs with
-  | none => (.err, [])
-  | some (m, rest) => if m ≠ 0xFFD8 then (.err, []) else loop {} rest
+  | none => .done st .err           -- EOF ⇒ "incomplete JPEG-LS data", other errors as they are
+  | some (m, rest) =>
+    let fail := fun (s : St) (a : Nat) => { s with allocs := s.allocs ++ [a] }
+    if m = 0xFFF7 then
+      segTurn st rest fail fun pl _ => sof55 { st with allocs := st.allocs ++ [pl.length] } pl
+    else if m = 0xFFF8 then
+      segTurn st rest fail fun pl _ => lse { st with allocs := st.allocs ++ [pl.length] } pl
+    else if m = 0xFFDA then
+      segTurn st rest fail fun pl unread =>
+        if sosOk st pl then .stop { st with allocs := st.allocs ++ [pl.length] ++ scanAllocs st unread } .beyond
+        else .stop { st with allocs := st.allocs ++ [pl.length] } .err
+    else if m = 0xFFD9 then .done st .err
+    else if hasLength m then
+      segTurn st rest fail fun pl _ => .cont { st with allocs := st.allocs ++ [pl.length] }
+    else .more st rest
+
+theorem step_lt {st st' : St} {bs r : Bytes} (h : step st bs = .more st' r) : r.length < bs.length := by
+  unfold step at h
+  split at h
+  · cases h
+  · rename_i m rest hm
+    have hp := readMarker_progress hm
+    simp only at h
+    repeat' split at h
+    all_goals first
+      | (have := segTurn_lt h; omega)
+      | (injection h with _ h2; subst h2; omega)
+      | cases h
+
+/-- `jpegls/lossless.Decode` up to the start of the scan -/
+def header (bs : Bytes) : St × Res :=
+  match readMarker bs with
+  | none => ({}, .err)
+  | some (m, rest) => if m ≠ 0xFFD8 then ({}, .err) else run step step_lt {} rest
+
+/-! ## near-lossless decoder: parameters are derived at SOS, once NEAR is known -/
+
+/-- nearlossless parseSOF55: only stores -/
+def nsof55 (st : St) (data : Bytes) : H St :=
+  match sofFields data with
+  | none => .stop st .err
+  | some (p, h, w, nc) => .cont { st with maxVal := maxValOf p, bitDepth := p, width := w, height := h, comps := nc }
+
+/-- nearlossless parseLSE: only stores (MAXVAL when > 0) -/
+def nlse (st : St) (data : Bytes) : H St :=
+  match data with
+  | [] => .stop st .err
+  | id :: _ =>
+    if id = 1 ∧ data.length ≥ 11 then
+      let mv : Int := (data.getD 1 0 * 256 + data.getD 2 0 : Nat)
+      .cont { st with maxVal := if mv > 0 then mv else st.maxVal }
+    else .cont st
+
+/-- nearlossless parseSOS: NEAR = data[len−3], then applyCodingParameters -/
+def nsos (st : St) (data : Bytes) (unread : Nat) : H St :=
+  if sosOk st data then
+    let near := data.getD (data.length - 3) 0
+    match codingParamsPanic st.maxVal near with
+    | some s => .stop st (.panic s)
+    | none => .stop { st with near := near, allocs := st.allocs ++ [ctxAlloc] ++ scanAllocs st unread } .beyond
+  else .stop st .err
+
+def nstep (st : St) (bs : Bytes) : Step St :=
+  match readMarker bs with
+  | none => .done st .err
+  | some (m, rest) =>
+    let fail := fun (s : St) (a : Nat) => { s with allocs := s.allocs ++ [a] }
+    if m = 0xFFF7 then
+      segTurn st rest fail fun pl _ => nsof55 { st with allocs := st.allocs ++ [pl.length] } pl
+    else if m = 0xFFF8 then
+      segTurn st rest fail fun pl _ => nlse { st with allocs := st.allocs ++ [pl.length] } pl
+    else if m = 0xFFDA then
+      segTurn st rest fail fun pl unread => nsos { st with allocs := st.allocs ++ [pl.length] } pl unread
+    else if m = 0xFFD9 then .done st .err
+    else if hasLength m then
+      segTurn st rest fail fun pl _ => .cont { st with allocs := st.allocs ++ [pl.length] }
+    else .more st rest
+
+theorem nstep_lt {st st' : St} {bs r : Bytes} (h : nstep st bs = .more st' r) : r.length < bs.length := by
+  unfold nstep at h
+  split at h
+  · cases h
+  · rename_i m rest hm
+    have hp := readMarker_progress hm
+    simp only at h
+    repeat' split at h
+    all_goals first
+      | (have := segTurn_lt h; omega)
+      | (injection h with _ h2; subst h2; omega)
+      | cases h
+
+/-- `jpegls/nearlossless.Decode` up to the start of the scan -/
+def nheader (bs : Bytes) : St × Res :=
+  match readMarker bs with
+  | none => ({}, .err)
+  | some (m, rest) => if m ≠ 0xFFD8 then ({}, .err) else run nstep nstep_lt {} rest
 
 end JlsH
